@@ -114,4 +114,48 @@ def exLater : Content :=
 example : getArgsSel exLater none 0 { readouts := true } =
     .ok [("time", 0), ("x", 2), ("p", 3), ("r", 6), ("b", 22), ("a", 11)] := by decide +kernel
 
+/-! ### the fluxes are read from the dict `_get_args` returned (data sets popped) -/
+
+/-- **`guardFlux` changes nothing whenever `get_fluxes` answers** — i.e. whenever every reaction name and
+    every surrogate stoichiometry key is bound in the popped dict (always the case when the keys are
+    surrogate outputs, which the shared name space keeps apart from the data sets).  This is the exact
+    hypothesis under which the unguarded `callRhs` / `getRhs` / `getFluxes` / `getArgs` / `getStoich` of the
+    other theorems are what the driver answers. -/
+theorem C01_flux_guard_transparent {α} (c : Content) (vars : Option (List (Name × Rat))) (t : Rat)
+    (r : Except Err α) {fl : List (Name × Rat)} (h : getArgsSel c vars t fluxFlags = .ok fl) :
+    guardFlux c vars t r = r := by
+  simp [guardFlux, h]
+
+/-- **a flux the popped dict does not hold is a `KeyError` at every entry point that reads fluxes**
+    (a surrogate stoichiometry key that is a data-set name or no output at all): no numbers -/
+theorem C01_unbound_flux_rejected {α} (c : Content) (vars : Option (List (Name × Rat))) (t : Rat)
+    (r : Except Err α) {e : Err} (h : getArgsSel c vars t fluxFlags = .error e) :
+    guardFlux c vars t r = .error e := by
+  simp [guardFlux, h]
+
+/-- the cross-audit's witness: the stoichiometry key of the surrogate is the data set `dat` -/
+def exDatFlux : Content :=
+  { vars := [("x", .plain 1)], data := [("dat", 3)],
+    surs := [("s", ⟨["x"], ["o1"], fun _ => [0], [("dat", [("x", .num 1)])]⟩)] }
+
+example : callRhs exDatFlux 0 [5] = .ok [3] := by decide +kernel
+example : guardFlux exDatFlux (some [("x", 5)]) 0 (callRhs exDatFlux 0 [5]) = .error (.keyError "dat") := by
+  decide +kernel
+
+/-- non-vacuity of `C01_rhs_is_Nv` on a NON-trivial model: a derived quantity over the state and time,
+    a reaction with a numeric and a state-dependent coefficient, a two-output surrogate with one flux,
+    an untouched variable: `d = x + t = 3`, `r = d·p = 9`, `dx = −9`, `dy = x·r + f1 = 18 + 4`, `dz = 0` -/
+def exNV : Content :=
+  { vars := [("x", .plain 2), ("y", .plain 1), ("z", .plain 9)], pars := [("p", .plain 3)],
+    derived := [("d", ⟨["x", "time"], fun v => v.getD 0 0 + v.getD 1 0⟩)],
+    rxns := [("r", ⟨⟨["d", "p"], fun v => v.getD 0 0 * v.getD 1 0⟩,
+      [("x", .num (-1)), ("y", .dyn ⟨["x"], fun v => v.getD 0 0⟩)]⟩)],
+    surs := [("s", ⟨["x"], ["o1", "f1"], fun v => [v.getD 0 0, 2 * v.getD 0 0],
+      [("f1", [("y", .num 1)])]⟩)] }
+
+example : callRhs exNV 1 [2, 1, 9] = .ok [-9, 22, 0] := by decide +kernel
+example : (omKeys exNV.allStoich).Nodup := by decide +kernel
+example : guardFlux exNV (some [("x", 2), ("y", 1), ("z", 9)]) 1 (callRhs exNV 1 [2, 1, 9]) =
+    .ok [-9, 22, 0] := by decide +kernel
+
 end Mxl.C01
